@@ -15,10 +15,10 @@ def run(ctx):
                   minimum=8)
     for cfg, fb in sorted(fbs.items()):
         P = 'yaclib::FairThreadPool'
-        lib_exec.check_pool_count(ctx, fb, rc)
-        lib_exec.check_submit_linear(ctx, fb, rl, lambda f: f.clsq == P)
+        ctx.guard(lambda: lib_exec.check_pool_count(ctx, fb, rc))
+        ctx.guard(lambda: lib_exec.check_submit_linear(ctx, fb, rl, lambda f: f.clsq == P))
         deq = [f for f in fb.fn.values() if f.clsq == P and f.n in ('Loop', 'HardStop') and f.cfg is not None]
         if len(deq) != 2:
             ctx.broken('FairThreadPool::Loop/HardStop not found in %s' % cfg)
-        lib_exec.check_dequeue(ctx, fb, rl, deq)
-        lib_exec.check_pool_lockset(ctx, fb, rk, rd)
+        ctx.guard(lambda: lib_exec.check_dequeue(ctx, fb, rl, deq))
+        ctx.guard(lambda: lib_exec.check_pool_lockset(ctx, fb, rk, rd))
